@@ -6,6 +6,9 @@
 use crate::{TxId, scheduler::PublishedCursorReader};
 use ahash::AHashSet as HashSet;
 use parking_lot::Mutex;
+#[cfg(grevm_verif)]
+use crate::verif::atomic::{AtomicUsize, Ordering};
+#[cfg(not(grevm_verif))]
 use std::sync::atomic::{AtomicUsize, Ordering};
 
 struct DependentState {
@@ -42,7 +45,7 @@ impl TxDependency {
     pub(crate) fn next(&self) -> Option<TxId> {
         if self.index.load(Ordering::Relaxed) >= self.num_txs {
             #[cfg(grevm_verif)]
-            crate::verif::p1("dep_next_full", self.index.load(Ordering::Relaxed) as i64);
+            crate::verif::p1("dep_next_full", self.index.peek() as i64);
             return None;
         }
         let index = self.index.fetch_add(1, Ordering::Relaxed);
@@ -185,7 +188,7 @@ impl TxDependency {
         crate::verif::p3(
             "dep_key_tx",
             txid as i64,
-            commit_idx.get() as i64,
+            commit_idx.verif_peek() as i64,
             crate::verif::opt(state.dependency),
         );
     }
